@@ -170,9 +170,13 @@ func runC05(c *Ctx) {
 			fmt.Sprintf("nodecutoff>0:%v", o.NodeCutoff > 0), fmt.Sprintf("edgecutoff>0:%v", o.EdgeCutoff > 0),
 			fmt.Sprintf("cumsort:%v", o.CumSort), "gran:"+o.Gran)
 	}
+	forceGran := "*"
 	sweep := func(gen string, p *profile.Profile, textable bool, per int) {
 		base := c04Opts{Format: "text"}
 		base.Gran = PickS(r, c04Grans)
+		if forceGran != "*" {
+			base.Gran = forceGran
+		}
 		base.NoInlines = r.P(1, 4)
 		base.Mean = r.P(1, 5)
 		base.DropNeg = r.P(1, 6)
@@ -214,7 +218,17 @@ func runC05(c *Ctx) {
 	for _, p := range c04Shapes() {
 		sweep("shape", p.Copy(), true, c.Budget(10, 200))
 	}
-	nprof := c.Budget(90, 1500)
+	// a function with a lined location AND a location whose line is 0: at lines granularity (or
+	// addresses with address 0) the line-less entry's NodeInfo IS the whole-function node that
+	// FindOrInsertNode creates as a side effect for the lined one; trimming must still remove it
+	for _, p := range c05LineLess() {
+		for _, gr := range []string{"lines", "addresses", "lines"} {
+			forceGran = gr
+			sweep("lineless", p.Copy(), true, c.Budget(12, 200))
+		}
+	}
+	forceGran = "*"
+	nprof := c.Budget(80, 1500)
 	for k := 0; k < nprof; k++ {
 		kn := c04Knobs(r)
 		kn.MaxSamples = 6
@@ -229,6 +243,52 @@ func runC05(c *Ctx) {
 		}
 		sweep("random", p.Copy(), textable, c.Budget(8, 16))
 	}
+}
+
+// c05LineLess: function F has a location with line 10 and one with line 0 (address non-zero or
+// zero), in both Profile.Location orders; F:10 is heavy, the line-less entry is light.
+func c05LineLess() []*profile.Profile {
+	var out []*profile.Profile
+	for _, linedFirst := range []bool{true, false} {
+		for _, addr0 := range []bool{false, true} {
+			p := &profile.Profile{SampleType: []*profile.ValueType{{Type: "cpu", Unit: "count"}}}
+			m := &profile.Mapping{ID: 1, Start: 0x1000, Limit: 0x9000, File: "bin/prog", HasFunctions: true}
+			p.Mapping = []*profile.Mapping{m}
+			fn := func(id uint64, name string) *profile.Function {
+				f := &profile.Function{ID: id, Name: name, SystemName: name, Filename: name + ".go"}
+				p.Function = append(p.Function, f)
+				return f
+			}
+			fm, ff, fg, fh := fn(1, "main"), fn(2, "F"), fn(3, "G"), fn(4, "H")
+			lessAddr := uint64(0x1020)
+			if addr0 {
+				lessAddr = 0
+			}
+			lmain := &profile.Location{ID: 1, Mapping: m, Address: 0x1001, Line: []profile.Line{{Function: fm, Line: 1}}}
+			lined := &profile.Location{ID: 2, Mapping: m, Address: 0x1010, Line: []profile.Line{{Function: ff, Line: 10}}}
+			less := &profile.Location{ID: 3, Mapping: m, Address: lessAddr, Line: []profile.Line{{Function: ff, Line: 0}}}
+			lg := &profile.Location{ID: 4, Mapping: m, Address: 0x1030, Line: []profile.Line{{Function: fg, Line: 30}}}
+			lh := &profile.Location{ID: 5, Mapping: m, Address: 0x1040, Line: []profile.Line{{Function: fh, Line: 40}}}
+			gless := &profile.Location{ID: 6, Mapping: m, Address: lessAddr, Line: []profile.Line{{Function: fg, Line: 0}}}
+			if linedFirst {
+				p.Location = []*profile.Location{lmain, lined, less, lg, lh, gless}
+			} else {
+				p.Location = []*profile.Location{lmain, less, lined, gless, lg, lh}
+			}
+			add := func(v int64, st ...*profile.Location) {
+				p.Sample = append(p.Sample, &profile.Sample{Value: []int64{v}, Location: st})
+			}
+			// leaf first
+			add(100, lined, lmain)
+			add(3, less, lmain)
+			add(50, lg, lined, lmain)
+			add(2, lh, less, lmain)
+			add(20, lh, lmain)
+			add(1, gless, lg, lmain)
+			out = append(out, p)
+		}
+	}
+	return out
 }
 
 // c05Chains: linear chains and diamonds whose weights put every cutoff between distinct cums
